@@ -1,4 +1,5 @@
 import FrappyDrive.C01
+import FrappyDrive.C03
 import FrappyDrive.C20
 import FrappyDrive.DTypes
 import FrappyDrive.FloatInst
